@@ -811,6 +811,35 @@ pub fn c14_churn_case(rng: &mut Rng, index: u64, st: &mut Stats) -> CaseOutcome 
                         break;
                     }
                     let k = (j + t) % hot.len();
+                    // every third hit goes through the other public entry to the cache: the simple
+                    // builder (add_patterns), with its own hot configuration
+                    if j % 3 == 2 {
+                        let r = sut(|| scnr::ScannerBuilder::new().add_patterns(["hotx+", "hoty", "[0-9]+"]).build());
+                        let bad = match r {
+                            Err(pm) => Some(format!("hit thread {} iteration {}: add_patterns(..).build() panicked: {}", t, j, pm)),
+                            Ok(Err(e)) => Some(format!("hit thread {} iteration {}: add_patterns(..).build() failed: {}", t, j, e)),
+                            Ok(Ok(sc)) => match scan_all(&sc, "hotxx 42hoty", 0, 0) {
+                                Ok(got)
+                                    if got
+                                        == vec![
+                                            Tok { tt: 0, start: 0, end: 5 },
+                                            Tok { tt: 2, start: 6, end: 8 },
+                                            Tok { tt: 1, start: 8, end: 12 },
+                                        ] =>
+                                {
+                                    None
+                                }
+                                Ok(got) => Some(format!("hit thread {} iteration {}: the simple scanner tokenizes its probe as {:?}", t, j, got)),
+                                Err(e) => Some(format!("hit thread {} iteration {}: {}", t, j, e)),
+                            },
+                        };
+                        if let Some(m) = bad {
+                            failed.store(true, Ordering::Relaxed);
+                            failures.lock().unwrap().push(m);
+                            break;
+                        }
+                        continue;
+                    }
                     let r = sut(|| hot[k].build_cached());
                     let msg = match r {
                         Err(pm) => Some(format!("hit thread {} iteration {}: build() of a cached configuration panicked: {}", t, j, pm)),
@@ -915,7 +944,7 @@ pub fn c14(tier: Tier) -> i32 {
         res.stats.add(&format!("send_sync_probe_{}", p), 1);
     }
     let report = Report::new(
-        "stream 2 (churn): 2-8 threads repeat build() of 2-4 hot configurations in a tight loop (2000 times each, every 8th result scanned and compared) while 1-4 threads build 500 never-seen configurations each, so that the cache grows by thousands of entries while hits are in flight; three rounds per worker process. stream 1: rounds of 2-16 (one in eleven: 33) threads started at a barrier; each thread runs 10-40 operations drawn from: build() of hot keys shared by all threads, of cold keys unique to the round and of failing keys; build_uncached(); complete scans on one shared Scanner; scans on the shared Scanner interrupted by a yield; with yields and 50 us sleeps injected between operations. Every result is compared with a table computed single-threaded with build_uncached() beforehand (token streams on probe inputs in every mode; Ok/Err). Hook H3 records the order in which the cache lock was taken: distinct_nontrivial counts the distinct shapes of 8 consecutive lock acquisitions that involve at least two threads (thread identities renamed in order of first occurrence, with the hit/miss pattern). Rounds run in worker processes of 10 rounds each: a worker killed by a signal (memory corruption) is attributed to the round it was running, and a worker that completes nothing for 120 s with all its tasks blocked in a futex wait is reported as a deadlock (otherwise a slow worker is inconclusive). Scanner: Send + Sync is a compile-time probe built by the driver (/verif/probe_send_sync, a separate crate). Thorough adds ThreadSanitizer and Miri runs of the same workload.",
+        "stream 2 (churn): 2-8 threads repeat build() of 2-4 hot configurations in a tight loop (2000 times each, every third time through add_patterns(..).build(), the simple builder; every 8th result scanned and compared) while 1-4 threads build 500 never-seen configurations each, so that the cache grows by thousands of entries while hits are in flight; three rounds per worker process. stream 1: rounds of 2-16 (one in eleven: 33) threads started at a barrier; each thread runs 10-40 operations drawn from: build() of hot keys shared by all threads, of cold keys unique to the round and of failing keys; build_uncached(); complete scans on one shared Scanner; scans on the shared Scanner interrupted by a yield; with yields and 50 us sleeps injected between operations. Every result is compared with a table computed single-threaded with build_uncached() beforehand (token streams on probe inputs in every mode; Ok/Err). Hook H3 records the order in which the cache lock was taken: distinct_nontrivial counts the distinct shapes of 8 consecutive lock acquisitions that involve at least two threads (thread identities renamed in order of first occurrence, with the hit/miss pattern). Rounds run in worker processes of 10 rounds each: a worker killed by a signal (memory corruption) is attributed to the round it was running, and a worker that completes nothing for 120 s with all its tasks blocked in a futex wait is reported as a deadlock (otherwise a slow worker is inconclusive). Scanner: Send + Sync is a compile-time probe built by the driver (/verif/probe_send_sync, a separate crate). Thorough adds ThreadSanitizer and Miri runs of the same workload.",
     )
     .floor("rounds", 200)
     .floor("churn_rounds", 20)
